@@ -296,6 +296,9 @@ def fam_inject(out, tier, rnd):
     # request that the prepared situations have pending, or of the inbound message they hold)
     for first, lo in ((0x40, 1), (0x50, 1), (0x70, 1), (0x90, 1), (0xB0, 2), (0xB0, 1), (0x62, 9), (0x40, 2), (0x50, 2)):
         always.append(bytes([first, 1, lo]))
+    # ... a well-formed chunk of three packets, the first one with a two-byte remaining length (what is delivered and
+    # acknowledged must be exactly these packets)
+    always.append(W.publish("big/t", b"B" * 200, 1, 31) + W.publish("a", b"x", 0) + W.publish("small/t", b"@\x02\x00\x01", 1, 32))
     # ... and packets of types that only a client sends, or that do not exist
     always += [bytes([0xC0, 0]), bytes([0xE0, 0]), bytes([0x00, 0]), bytes([0xF0, 0]), bytes([0x82, 2, 0, 1]), bytes([0xA2, 2, 0, 1]), bytes([0x10, 0])]
     for prof, sit in combos:
